@@ -2,6 +2,7 @@ package main
 
 import (
 	"fmt"
+	"go/ast"
 	"os"
 	"sort"
 	"strconv"
@@ -19,6 +20,15 @@ func usage() {
 func main() {
 	if len(os.Args) < 3 {
 		usage()
+	}
+	if os.Args[1] == "dump" && len(os.Args) >= 5 {
+		p, err := Load(false)
+		if err != nil {
+			fmt.Fprintln(os.Stderr, err)
+			os.Exit(2)
+		}
+		dumpFunc(p, os.Args[2], os.Args[3], os.Args[4])
+		return
 	}
 	prop, tier := os.Args[1], os.Args[2]
 	if tier != "quick" && tier != "thorough" {
@@ -73,3 +83,29 @@ func main() {
 
 // thoroughExtras is extended by selftest.go.
 var thoroughExtras = func(c *Ctx, extra map[string]any) {}
+
+// dumpFunc prints the structural paths of a function (developer aid).
+func dumpFunc(p *Prog, rel, recv, name string) {
+	fi := p.Func(rel, recv, name)
+	if fi == nil {
+		fmt.Println("not found")
+		return
+	}
+	paths, pe := enumFunc(fi, func(n ast.Node) []Event {
+		var out []Event
+		for _, c := range callsIn(n) {
+			if o := calleeObj(fi.Pkg.TypesInfo, c); o != nil {
+				out = append(out, Event{Kind: o.Name(), Node: c})
+			}
+		}
+		return out
+	}, nil)
+	fmt.Println(len(paths), "paths; overflow", pe.overflow, "unsupported", pe.unsup)
+	for i, pt := range paths {
+		var fs []string
+		for _, f := range pt.Formulas() {
+			fs = append(fs, f.fstr())
+		}
+		fmt.Printf("#%d %s\n    F: %v\n    OUT: %s\n", i, pt.describe(p), fs, defaultOutcome(fi.Pkg.TypesInfo, fi.Decl, pt))
+	}
+}
